@@ -17,7 +17,7 @@
 use std::cell::RefCell;
 use std::collections::{HashMap, HashSet};
 use std::hash::{Hash, Hasher};
-use std::rc::Rc;
+use std::rc::{Rc, Weak};
 
 /// Pickle virtual machine (PVM) stack.
 ///
@@ -96,6 +96,11 @@ impl StackObjectRef {
     /// Borrow the inner object mutably.
     pub fn borrow_mut(&self) -> std::cell::RefMut<'_, StackObject> {
         self.0.borrow_mut()
+    }
+
+    /// Get a non-owning handle to the same cell.
+    pub fn downgrade(&self) -> Weak<RefCell<StackObject>> {
+        Rc::downgrade(&self.0)
     }
 
     /// Get a reference to the inner Rc.
@@ -217,6 +222,13 @@ pub enum StackObject {
 }
 
 impl StackObject {
+    /// Remove and return the directly contained references, leaving this object empty.
+    pub(crate) fn detach_children(&mut self) -> Vec<StackObjectRef> {
+        let mut children = Vec::new();
+        self.take_children(&mut children);
+        children
+    }
+
     /// Move the directly contained references out of this object, leaving it empty.
     fn take_children(&mut self, out: &mut Vec<StackObjectRef>) {
         match self {
